@@ -609,6 +609,8 @@ def verify_instance(contract: Contract, inst: Instance, *, seed=0, tier="quick")
     res = Result(contract=contract.name, instance=inst.name)
     P.reset()
     prims.reset()
+    cert._CORE_CACHE.clear()  # keyed by symbol ids, which are reused after P.reset(): must not survive a verification unit
+    _PROVERS.clear()
     unpatch_all()
     try:
         _verify(contract, inst, res, seed, tier)
